@@ -22,6 +22,8 @@ func init() {
 		},
 		Run: runC36,
 		Controls: []Control{
+			{Name: "reload-installs-the-configured-chain-raw", File: "protocols/bgp/server/peer.go", Old: "func (p *peer) replaceImportFilterChain(c filter.Chain) {\n\t// the same default as for a chain configured at start (see newPeer): no policy means reject all\n\tc = filterOrDefault(c)\n", New: "func (p *peer) replaceImportFilterChain(c filter.Chain) {\n", Expect: "in-place-policy-normalised-like-fresh-start"},
+			{Name: "refactor-normalise-at-each-store", Silent: true, File: "protocols/bgp/server/peer.go", Old: "func (p *peer) replaceExportFilterChain(c filter.Chain) {\n\t// the same default as for a chain configured at start (see newPeer): no policy means reject all\n\tc = filterOrDefault(c)\n", New: "func (p *peer) replaceExportFilterChain(c filter.Chain) {\n\teffective := filterOrDefault(c)\n\tc = effective\n"},
 			{Name: "route-filter-equality-by-base-address", File: "routingtable/filter/route_filter.go", Old: "\tif f.pattern != x.pattern {\n", New: "\tif f.pattern != x.pattern && f.pattern.BaseAddr() != x.pattern.BaseAddr() {\n", Expect: "chain-equality-is-not-coarser"},
 			{Name: "range-matcher-differs-only-if-both-bounds-differ", File: "routingtable/filter/prefix_matcher.go", Old: "\tif i.min != y.min || i.max != y.max {\n", New: "\tif i.min != y.min && i.max != y.max {\n", Expect: "chain-equality-is-not-coarser"},
 			{Name: "replace-session-arguments-swapped", File: "cmd/bio-rd/bgp.go", Old: "func (c *bgpConfigurator) replaceSession(newCfg, oldCfg *bgpserver.PeerConfig) error {", New: "func (c *bgpConfigurator) replaceSession(oldCfg, newCfg *bgpserver.PeerConfig) error {", Expect: "added-peer-comes-from-new-configuration"},
@@ -39,6 +41,7 @@ func init() {
 func runC36(c *core.Ctx) {
 	addedPeerComesFromNewConfiguration(c)
 	chainEqualityIsNotCoarser(c)
+	inPlacePolicyIsNormalisedLikeAFreshStart(c)
 	p := c.P
 	newPeer := c.MustFunc(srv + ".newPeer")
 	needs := c.MustFunc(srv + ".(*PeerConfig).NeedsRestart")
